@@ -440,7 +440,7 @@ Section Proofs.
   Lemma Inv_step : forall st m e m',
     Inv st m -> adm_step C m e = Some m' -> Inv (snd (step C st e)) m'.
   Proof.
-    intros st m e m' I H. destruct e as [j|k|k c vld|k c vld|k c vld|r|r|k| |ds|].
+    intros st m e m' I H. destruct e as [j|k|k c vld|k c vld|k c vld|r|r|k| |ds| |ok].
     - eapply Inv_define; eauto.
     - eapply Inv_wrap; eauto.
     - cbn in *. eapply cached_call_ok; eauto.
@@ -471,6 +471,11 @@ Section Proofs.
       intros x Hin. apply filter_In in Hin. tauto.
     - (* NewProcess *)
       cbn in *. inversion H. subst. destruct I. constructor; cbn; auto; try tauto; try discriminate.
+    - (* Forget *)
+      cbn in *. inversion H. subst. destruct I. constructor; cbn; auto.
+      + intros k Hin. destruct ok as [k0|]; [|destruct Hin].
+        apply remove_nat_In in Hin. apply remove_nat_In. split; [apply i_table0; tauto | tauto].
+      + intros k Hin. destruct ok as [k0|]; [|destruct Hin]. apply remove_nat_In in Hin. apply i_named0. tauto.
   Qed.
 
   Lemma step_call_sound : forall st m e m',
@@ -546,7 +551,7 @@ Section Proofs.
         - rewrite Hc. apply orb_true_iff. left. apply orb_true_r.
         - unfold cur_is. rewrite Hc. rewrite (UN k0 k). rewrite seqb_refl. apply orb_true_r. }
       rewrite E. eexists. split; [reflexivity|]. split; cbn; [reflexivity | right; exists k; reflexivity]. }
-    destruct e as [j|k|k c vld|k c vld|k c vld|r|r|k| |ds|]; cbn;
+    destruct e as [j|k|k c vld|k c vld|k c vld|r|r|k| |ds| |ok]; cbn;
       try (destruct (canonicalise C c); [apply Huse | exists m; split; [reflexivity | split; assumption]]);
       try (exists m; split; [reflexivity | split; assumption]).
     - eexists. split; [reflexivity|]. split; cbn.
@@ -558,6 +563,8 @@ Section Proofs.
     - apply Huse.
     - eexists. split; [reflexivity|]. split; cbn; auto.
     - eexists. split; [reflexivity|]. split; cbn; auto.
+    - eexists. split; [reflexivity|]. split; cbn; [exact Hs|].
+      destruct Hc as [Hc|Hc]; [left; rewrite Hc; destruct ok; reflexivity | right; exact Hc].
   Qed.
 
   Lemma uniform_adm_run : forall h m, uniform -> mon_uniform m -> adm_run C m h = true.
